@@ -163,6 +163,10 @@ func (p *Parser) F() float64 {
 }
 func (p *Parser) Pt() geom.Point { x := p.F(); y := p.F(); return geom.Point{X: x, Y: y} }
 func (p *Parser) Pts() []geom.Point {
+	if p.Peek() == "nil" { // a nil slice (Go distinguishes it from an empty one; the models do not)
+		p.Next()
+		return nil
+	}
 	n := p.Int()
 	r := make([]geom.Point, n)
 	for i := range r {
@@ -171,6 +175,10 @@ func (p *Parser) Pts() []geom.Point {
 	return r
 }
 func (p *Parser) Ptss() []geom.Path {
+	if p.Peek() == "nil" {
+		p.Next()
+		return nil
+	}
 	n := p.Int()
 	r := make([]geom.Path, n)
 	for i := range r {
